@@ -307,7 +307,9 @@ func genC14(seed uint64, r *Rng, idx, vecs int) *C14Case {
 			// the argument wrapped over two lines
 			quote(f.Rel) + "\n  | append: \"\"", fmt.Sprintf("inc%d\n| pathof", i),
 			// a filter whose Go result is a []byte (the value of a filtered expression is then a string)
-			fmt.Sprintf("inc%d | bytesof", i), quote(f.Rel) + " | bytesof"}
+			fmt.Sprintf("inc%d | bytesof", i), quote(f.Rel) + " | bytesof",
+			// a name that starts with a slash is still a name below the template's directory
+			quote("/" + f.Rel), `"" | append: "/" | append: ` + quote(f.Rel)}
 	}
 	argsFor := func(i int) []string {
 		as := argsFor0(i)
@@ -321,6 +323,8 @@ func genC14(seed uint64, r *Rng, idx, vecs int) *C14Case {
 				rel = "x/../" + rel
 			case strings.HasPrefix(a, `"y//../`):
 				rel = "y//../" + rel
+			case strings.HasPrefix(a, `"/`), strings.HasPrefix(a, `"" | append: "/"`):
+				rel = "/" + rel
 			}
 			cs.ArgTargets[a] = rel
 		}
@@ -366,6 +370,13 @@ func genC14(seed uint64, r *Rng, idx, vecs int) *C14Case {
 			if gg.Chance(0.1) {
 				t = append([]*TNode{{K: "text", S: "\ufeff"}}, t...) // the file starts with a UTF-8 byte-order mark
 			}
+			if gg.Chance(0.012) {
+				// a big file: just past a power-of-two size (buffer and limit boundaries), with
+				// something to render after the padding
+				size := pick(gg, []int{4 << 10, 64 << 10, 1 << 20, 4 << 20, 8 << 20})
+				pad := strings.Repeat("0123456789abcde\n", size/16+1)
+				t = append(t, &TNode{K: "text", S: pad}, &TNode{K: "obj", S: "zz"}, &TNode{K: "text", S: fmt.Sprintf("[end of %s]", f.Rel)})
+			}
 			return t
 		}
 		f.Tree, f.Alt = mkTree(1), mkTree(2)
@@ -382,6 +393,11 @@ func genC14(seed uint64, r *Rng, idx, vecs int) *C14Case {
 	root = append(root, g.Template(cs.Env)...)
 	// make sure at least one include executes unconditionally
 	root = append(root, &TNode{K: "tag", S: "include " + pick(gr2, argsFor(gr2.Intn(n)))})
+	for i, f := range cs.Files {
+		if countText(f.Tree) > 4<<10 { // a big file is worth including for certain
+			root = append(root, &TNode{K: "tag", S: "include " + argsFor(i)[0]})
+		}
+	}
 	cs.Root = root
 	if gr2.Chance(0.6) && !cs.Pathless {
 		// second root in a sibling directory of the first
@@ -1351,6 +1367,14 @@ func c14Find(c *Ctx, cs *C14Case, scratch, tag string, out *CaseOut, wantSig str
 	return fails
 }
 
+func countText(ns []*TNode) int {
+	n := 0
+	for _, t := range ns {
+		n += len(t.S) + countText(t.C)
+	}
+	return n
+}
+
 func (ck c14) RunCase(c *Ctx, idx int) *CaseOut {
 	vecs := c14QuickVec
 	if c.Tier == "thorough" {
@@ -1371,6 +1395,11 @@ func (ck c14) RunCase(c *Ctx, idx int) *CaseOut {
 	}
 	for _, f := range cs.Files {
 		c.count("state:"+stNames[f.State], 1)
+		if n := countText(f.Tree); n > 1<<20 {
+			c.count("include_files_over_1MiB", 1)
+		} else if n > 4<<10 {
+			c.count("include_files_over_4KiB", 1)
+		}
 	}
 	for _, f := range fails {
 		out.Violations = append(out.Violations, c14Violation(c, cs, f, idx))
@@ -1379,7 +1408,7 @@ func (ck c14) RunCase(c *Ctx, idx int) *CaseOut {
 	if idx%211 == 0 {
 		fs := []map[string]any{}
 		for _, f := range cs.Files {
-			fs = append(fs, map[string]any{"rel": f.Rel, "state": stNames[f.State], "content": Source(f.Tree)})
+			fs = append(fs, map[string]any{"rel": f.Rel, "state": stNames[f.State], "content": clip(Source(f.Tree))})
 		}
 		out.Sample = map[string]any{"root_path": cs.RootRel, "root": cs.Source, "files": fs, "history": cs.History}
 	}
